@@ -1296,9 +1296,11 @@ impl Options {
             if cfg!(feature = "power-of-two") && exp < 13 {
                 // 11 for the exponent digits in binary, 1 for the sign, 1 for the symbol
                 count += 13;
-            } else if exp < 5 {
-                // 3 for the exponent digits in decimal, 1 for the sign, 1 for the symbol
-                count += 5;
+            } else if exp < 12 {
+                // 1 for the sign, 1 for the symbol, and 10 for the exponent digits
+                // in decimal: there are at most 3, but the integer writer requires
+                // a buffer of `u32::FORMATTED_SIZE_DECIMAL` bytes.
+                count += 12;
             } else {
                 // More leading or trailing zeros than the exponent digits.
                 count += exp;
@@ -1339,6 +1341,10 @@ impl Options {
         } else {
             digits
         };
+        // The digits are written in place by the integer writer, which requires
+        // a buffer of `u64::FORMATTED_SIZE_DECIMAL` bytes at that position, no
+        // matter how many digits are kept afterwards.
+        let digits = max!(digits, 20);
         count += digits;
 
         // we need to make sure we have at least enough room for the
